@@ -273,6 +273,19 @@ impl Wc {
         Ok(stats)
     }
 
+    /// Fresh load, set the sparse patterns (prefix paths), save.
+    fn set_sparse(&self, prefixes: &[&str]) -> Result<CheckoutStats, String> {
+        let wc = self.load()?;
+        let mut locked = wc.start_mutation().block_on().map_err(|e| format!("lock: {e:?}"))?;
+        let patterns = prefixes.iter().map(|p| rp(p)).collect();
+        let stats = locked
+            .set_sparse_patterns(patterns)
+            .block_on()
+            .map_err(|e| format!("set_sparse_patterns: {e:?}"))?;
+        locked.finish(self.op_id.clone()).block_on().map_err(|e| format!("finish: {e:?}"))?;
+        Ok(stats)
+    }
+
     /// Fresh load, snapshot, save.
     fn snapshot(&self) -> Result<MergedTree, String> {
         let wc = self.load()?;
@@ -716,7 +729,9 @@ pub fn run_c24(ctx: &Ctx) -> i32 {
          (files, executables, symlinks, nested directories, file<->directory replacements between \
          consecutive trees; 40% of the trees are 3/5-term merges with content, exec-bit, \
          modify/delete and occasionally file/directory conflicts), under every eol-conversion x \
-         exec-bit-change x conflict-marker-style; each operation reloads the working copy. After every \
+         exec-bit-change x conflict-marker-style; a third of the workspaces have sparse prefix patterns, and \
+         conflicted trees are sometimes checked out again with the same tree ids but different conflict \
+         labels; each operation reloads the working copy. After every \
          checkout: disk == tree model, snapshot (immediately, and again after bumping every mtime so \
          all files are re-read) returns the same tree ids, and the disk equals a from-scratch \
          checkout of the same tree in a new workspace (files and directories). Non-trivial: at least \
@@ -743,7 +758,30 @@ pub fn run_c24(ctx: &Ctx) -> i32 {
             cur = step.terms[0].clone();
             steps.push(step);
         }
-        let describe = || json!({"settings": settings.json(), "steps": steps_json(&steps)});
+        // A third of the workspaces are sparse (prefix patterns), and a
+        // conflicted tree is sometimes checked out a second time with the same
+        // tree ids but different conflict labels (what a rebase produces).
+        let sparse: Option<Vec<&str>> = if rng.chance(1, 3) {
+            let all = ["a", "d", "k", "f", "a/b", "d/e"];
+            let mut picked: Vec<&str> = all.iter().copied().filter(|_| rng.chance(1, 2)).collect();
+            if picked.is_empty() {
+                picked.push("a");
+            }
+            Some(picked)
+        } else {
+            None
+        };
+        let relabel: Vec<bool> = (0..n_steps).map(|_| rng.chance(1, 2)).collect();
+        let in_patterns = |path: &str| -> bool {
+            match &sparse {
+                None => true,
+                Some(prefixes) => prefixes.iter().any(|p| path == *p || is_dir_prefix(p, path)),
+            }
+        };
+        let describe = || {
+            json!({"settings": settings.json(), "steps": steps_json(&steps), "sparse_patterns": sparse,
+                   "relabel_after_step": relabel})
+        };
         let mut nontrivial = false;
         let mut dropped = false;
         run_case(ctx, i, cs, describe, || {
@@ -762,10 +800,34 @@ pub fn run_c24(ctx: &Ctx) -> i32 {
                 if steps.iter().any(|s| has_clash(&s.terms)) {
                     ctx.count("cases_with_file_directory_clash_among_merge_terms");
                 }
+                // Insert the relabelled repeats.
+                let mut seq: Vec<MergedTree> = vec![];
+                for (k, tree) in trees.into_iter().enumerate() {
+                    let again = relabel[k] && tree.has_conflict();
+                    seq.push(tree.clone());
+                    if again {
+                        let n_terms = tree.tree_ids().as_slice().len();
+                        let labels = ConflictLabels::from_vec(
+                            (0..n_terms).map(|t| format!("relabelled {k} term {t}")).collect(),
+                        );
+                        seq.push(MergedTree::new(store.clone(), tree.tree_ids().clone(), labels));
+                        ctx.count("relabelled_conflict_checkouts");
+                    }
+                }
+                let trees = seq;
                 let wc = Wc::new(store, op_id, &settings);
+                if let Some(prefixes) = &sparse {
+                    wc.set_sparse(prefixes).map_err(|e| Fail { clause: "c24.set_sparse_failed".into(), message: e })?;
+                    ctx.count("sparse_workspaces");
+                }
                 let mut prev_leaves: BTreeMap<String, Leaf> = BTreeMap::new();
                 for (k, tree) in trees.iter().enumerate() {
-                    let leaves = expected_leaves(tree);
+                    let mut leaves = expected_leaves(tree);
+                    let before = leaves.len();
+                    leaves.retain(|p, _| in_patterns(p));
+                    if leaves.len() < before {
+                        ctx.count_n("tree_paths_outside_sparse_patterns", (before - leaves.len()) as u64);
+                    }
                     let stats = wc.check_out(tree).map_err(|e| Fail {
                         clause: "c24.checkout_failed".into(),
                         message: format!("step {k}: {e}"),
@@ -782,6 +844,9 @@ pub fn run_c24(ctx: &Ctx) -> i32 {
                         .map_err(|f| Fail { clause: f.clause, message: format!("step {k}: {}", f.message) })?;
                     // (3) from-scratch checkout in a new workspace
                     let fresh = Wc::new(store, op_id, &settings);
+                    if let Some(prefixes) = &sparse {
+                        fresh.set_sparse(prefixes).map_err(|e| Fail { clause: "c24.set_sparse_failed".into(), message: e })?;
+                    }
                     fresh.check_out(tree).map_err(|e| Fail {
                         clause: "c24.scratch_checkout_failed".into(),
                         message: format!("step {k}: {e}"),
@@ -881,7 +946,7 @@ pub fn run_c24(ctx: &Ctx) -> i32 {
             })
         });
         if !dropped {
-            ctx.case(stable_hash(&(&steps, &settings)), nontrivial);
+            ctx.case(stable_hash(&(&steps, &settings, &sparse, &relabel)), nontrivial);
             ctx.count(&format!("eol_{}", settings.eol));
             ctx.count(&format!("exec_{}", settings.exec));
             ctx.count(&format!("style_{}", settings.style));
